@@ -1369,6 +1369,7 @@ def run(ctx):
     work = []          # (case, sched)
     gwork = []         # cases of the guard stream (no faults)
     twork = []         # cases of the table stream (several buffers, no faults)
+    awork = []         # sessions of the autowrite stream (tools/props/c03_aw.py: whole histories with :se aw / noaw)
     if ctx.replay:
         rp = json.load(open(ctx.replay))
         inp = rp.get('input') or {}
@@ -1376,6 +1377,8 @@ def run(ctx):
             gwork.append(inp['case'])
         elif 'case' in inp and inp['case'].get('stream') == 'table':
             twork.append(inp['case'])
+        elif 'case' in inp and inp['case'].get('stream') == 'aw':
+            awork.append(inp['case'])
         elif 'case' in inp:
             work.append((inp['case'], [tuple(s) for s in inp.get('sched', [])]))
     else:
@@ -1388,6 +1391,8 @@ def run(ctx):
                     gwork.append(c['case'])
                 elif c['case'].get('stream') == 'table':
                     twork.append(c['case'])
+                elif c['case'].get('stream') == 'aw':
+                    awork.append(c['case'])
                 else:
                     work.append((c['case'], [tuple(s) for s in c.get('sched', [])]))
         gwork += guard_cases()
@@ -1406,6 +1411,11 @@ def run(ctx):
                 tcs += xs[:45]
         twork += tcs
         twork += table_random(rng.fork('table sessions'), 200 if ctx.quick else 4000)
+        from props import c03_aw
+        acs = c03_aw.a_cases()
+        ctx.res.extra['autowrite_stream_structured_sessions_enumerated'] = len(acs)
+        awork += c03_aw.a_quick_sample(acs, rng, 4) if ctx.quick else acs
+        awork += c03_aw.a_random(rng.fork('autowrite sessions'), 120 if ctx.quick else 3000)
         bases = base_cases()
         dry = vlib.pmap(lambda c: run_case(vi, c, []), bases)
         strata = {}        # (command, history kind, single/multi fault) -> schedules
@@ -1498,6 +1508,8 @@ def run(ctx):
     res.extra['editor_runs'] = len(work)
     run_guard(ctx, vi, model, gwork)
     run_table(ctx, vi, model, twork)
+    from props import c03_aw
+    c03_aw.run_aw(ctx, vi, model, awork)
 
 
 def run_guard(ctx, vi, model, gwork):
